@@ -885,7 +885,13 @@ class StateSpace(NonlinearIOSystem, LTI):
                     / (x_arr - self.A[0, 0]) \
                     * self.B[:, :, np.newaxis] \
                     + self.D[:, :, np.newaxis]
-            out[np.isnan(out)] = complex(np.inf, np.nan)
+            # Evaluating at the pole.  Return value depends if there is a
+            # zero at the same point or not (as for systems with more states).
+            at_pole = x_arr == self.A[0, 0]
+            if np.any(at_pole):
+                out[:, :, at_pole] = complex(np.nan, np.nan) \
+                    if self._has_zero_at(self.A[0, 0]) \
+                    else complex(np.inf, np.nan)
             return out
 
         try:
